@@ -219,8 +219,7 @@ Qed.
 Theorem add_edges_from_frame eb a s : Inv s -> Frame s (st_of (add_edges_from eb a s)).
 Proof.
   intro I. destruct eb as [l|l|l|l|l]; simpl.
-  - destruct l as [|[|x xs] r]; [apply Frame_refl|apply Frame_refl|].
-    revert I. generalize ((x :: xs) :: r). intros l I. revert s I. apply loop_frame.
+  - revert s I. apply loop_frame.
     intros s' ms I'. split; [apply Inv_bulk_auto|apply bulk_auto_frame]; exact I'.
   - revert s I. apply loop_frame. intros s' [m i] I'. split; [apply Inv_bulk_explicit|apply bulk_explicit_frame]; exact I'.
   - revert s I. apply loop_frame. intros s' [m ea] I'. split; [apply Inv_bulk_auto|apply bulk_auto_frame]; exact I'.
